@@ -411,6 +411,8 @@ impl<'a> Reader for ProtobufReader<'a> {
 
     #[inline]
     fn read_null<C: null::Constraint>(&mut self) -> Result<Null, Self::Error> {
+        // consumes the field number and the (empty) bytes field, if it is there
+        let _ = self.next_range_format_reader(Format::LengthDelimited);
         Ok(Null)
     }
 }
